@@ -30,6 +30,10 @@ pub struct Case {
     pub script: Vec<Cmd>,
     pub kind: &'static str,
     pub idx: u64,
+    /// bit 0: recoverable density errors at seeded evaluations (divergent draws; MCLMC without step size retry),
+    /// bit 1: slow record_sample (commands land while a chain is recording),
+    /// bit 2: the first initial points of every chain are invalid (initialisation is retried)
+    pub variant: u64,
 }
 
 fn gen_script(rng: &mut HRng, kind: &str, total_draws: u64) -> Vec<Cmd> {
@@ -124,8 +128,12 @@ pub fn gen_case(seed: u64, idx: u64) -> Case {
         1 => num_chains as usize,
         _ => num_chains as usize + rng.int_range(1, 8) as usize,
     };
-    let num_tune = rng.int_range(0, 20) as u64;
-    let num_draws = rng.int_range(1, 20) as u64;
+    // a run may consist of warmup only, and of nothing at all (both counts zero)
+    let (num_tune, num_draws) = match idx % 40 {
+        17 => (0, 0),
+        31 => (rng.int_range(1, 20) as u64, 0),
+        _ => (rng.int_range(0, 20) as u64, rng.int_range(1, 20) as u64),
+    };
     let mut delays = vec![];
     if rng.bool(0.6) {
         for c in 0..num_chains as i64 {
@@ -150,13 +158,56 @@ pub fn gen_case(seed: u64, idx: u64) -> Case {
         script,
         kind,
         idx,
+        variant: match (idx / 48) % 4 {
+            1 => 1,
+            2 => 2,
+            3 => 4,
+            _ => 0,
+        },
     }
+}
+
+/// Model / storage variants of a case; the uninterrupted reference run uses the same ones.
+pub fn apply_variant(c: &Case, s: &mut RunSpec) {
+    if c.variant & 1 != 0 {
+        let mut rng = HRng::new(c.seed ^ 0xD1F);
+        for ch in 0..c.num_chains as i64 {
+            let mut plan = BTreeMap::new();
+            let mut k = 12 + rng.below(20);
+            while k < 3000 {
+                plan.insert(k, crate::dens::Fault::Recoverable);
+                k += 3 + rng.below(25);
+            }
+            s.plans.insert(ch, plan);
+        }
+    }
+    if c.variant & 2 != 0 {
+        s.storage_faults.record_delay_us = 300 + (c.seed % 1500);
+    }
+    if c.variant & 4 != 0 {
+        s.model_faults.init_invalid_first = (0..c.num_chains as i64).map(|ch| (ch, 1 + (c.seed + ch as u64) % 3)).collect();
+    }
+}
+
+fn settings_of(c: &Case) -> J {
+    // with injected density errors an MCLMC chain must diverge instead of retrying with a smaller step, and a NUTS
+    // chain must not re-run its step size search (known C05 finding at that call site)
+    let extra: Vec<(&str, J)> = if c.variant & 1 != 0 {
+        if c.preset.is_nuts() {
+            vec![("adapt_options.step_size_settings.adapt_options.method", json!({"Fixed": 0.3}))]
+        } else {
+            vec![("dynamic_step_size", json!(false))]
+        }
+    } else {
+        vec![]
+    };
+    par::small_settings(c.preset, c.num_tune, c.num_draws, c.num_chains, c.seed, &extra)
 }
 
 pub fn case_json(c: &Case) -> J {
     json!({"preset": c.preset.name(), "num_tune": c.num_tune, "num_draws": c.num_draws, "num_chains": c.num_chains, "cores": c.cores, "seed": c.seed,
         "dim": c.dim, "delays": c.delays, "sched_seed": c.sched_seed, "yield_permille": c.yield_permille, "sleep_permille": c.sleep_permille,
-        "script": c.script.iter().map(|x| x.to_json()).collect::<Vec<_>>(), "kind": c.kind, "idx": c.idx})
+        "script": c.script.iter().map(|x| x.to_json()).collect::<Vec<_>>(), "kind": c.kind, "idx": c.idx, "variant": c.variant})
 }
 
 pub fn case_from_json(j: &J) -> Case {
@@ -179,12 +230,13 @@ pub fn case_from_json(j: &J) -> Case {
         script: j["script"].as_array().unwrap().iter().map(Cmd::from_json).collect(),
         kind,
         idx: j["idx"].as_u64().unwrap(),
+        variant: j.get("variant").and_then(|v| v.as_u64()).unwrap_or(0),
     }
 }
 
 pub fn spec_of(c: &Case) -> RunSpec {
-    let settings = par::small_settings(c.preset, c.num_tune, c.num_draws, c.num_chains, c.seed, &[]);
-    let mut s = RunSpec::new(c.preset, settings, Target::iso(c.dim, 0.2), c.cores);
+    let mut s = RunSpec::new(c.preset, settings_of(c), Target::iso(c.dim, 0.2), c.cores);
+    apply_variant(c, &mut s);
     s.delays = c.delays.iter().cloned().collect();
     s.sched_seed = c.sched_seed;
     s.yield_permille = c.yield_permille;
@@ -198,8 +250,13 @@ pub fn spec_of(c: &Case) -> RunSpec {
 
 /// Uninterrupted single-core reference hashes for the case's configuration.
 pub fn reference(c: &Case) -> Option<BTreeMap<u64, Vec<u64>>> {
-    let settings = par::small_settings(c.preset, c.num_tune, c.num_draws, c.num_chains, c.seed, &[]);
-    let s = RunSpec::new(c.preset, settings, Target::iso(c.dim, 0.2), 2);
+    if c.num_tune + c.num_draws == 0 {
+        // a run without any draw records nothing: no run is needed to know its trace
+        return Some((0..c.num_chains).map(|ch| (ch, vec![])).collect());
+    }
+    let mut s = RunSpec::new(c.preset, settings_of(c), Target::iso(c.dim, 0.2), 2);
+    apply_variant(c, &mut s);
+    s.storage_faults.record_delay_us = 0;
     match par::run_watched(&s, Duration::from_secs(120)) {
         Watched::Done(l) if matches!(l.fin, Final::Trace(_)) => Some(par::hashes(&l.records)),
         _ => None,
@@ -264,6 +321,13 @@ pub fn judge(report: &mut Report, prop: &str, c: &Case, log: &RunLog, refh: &BTr
                 let full = refh.get(ch).cloned().unwrap_or_default();
                 if v.len() > full.len() || v[..] != full[..v.len()] {
                     report.violation(sig("aborted_trace_is_not_a_prefix"), format!("chain {ch}: {} records, not a prefix of the uninterrupted run ({} records)", v.len(), full.len()), replay.clone());
+                    break;
+                }
+            }
+            // every chain that recorded something is part of the returned trace
+            for (ch, v) in got.iter() {
+                if !v.is_empty() && !fh.contains_key(ch) {
+                    report.violation(sig("aborted_trace_misses_chain"), format!("chain {ch} recorded {} draws but is not in the trace returned by abort (chains returned: {:?})", v.len(), fh.keys().collect::<Vec<_>>()), replay.clone());
                     break;
                 }
             }
